@@ -987,3 +987,11 @@ package graphql
 //@   props C12 C10
 //@   nosafety
 //@   orderfree
+
+// ---- Int literals (C05): the literal form obeys the same 32-bit range as coerceInt ----
+//@ func after:scalars.go:Int can represent values between -(2^31) and 2^31 - 1
+//@   props C05
+//@   nosafety
+//@   assigns nothing
+//@   ensures !typeis(valueAST, "*ast.IntValue") ==> isnil(result)
+//@   ensures !isnil(result) ==> typeis(result, "int") && -2147483648 <= intval(result) && intval(result) <= 2147483647
